@@ -17,5 +17,5 @@ package context
 //@   ensures[C22] !c.IsPrivate && c.IsProtected == old(c.IsProtected)
 //@ func (*ti/context.Context).EndProtected
 //@   ensures[C22] !c.IsProtected && c.IsPrivate == old(c.IsPrivate)
-//@ writers[C22] context.Context.IsPrivate (*ti/context.Context).StartPrivate,(*ti/context.Context).StartProtected,(*ti/context.Context).EndPrivate
-//@ writers[C22] context.Context.IsProtected (*ti/context.Context).StartPrivate,(*ti/context.Context).StartProtected,(*ti/context.Context).EndProtected
+//@ writers[C22] ti/context.Context.IsPrivate (*ti/context.Context).StartPrivate,(*ti/context.Context).StartProtected,(*ti/context.Context).EndPrivate
+//@ writers[C22] ti/context.Context.IsProtected (*ti/context.Context).StartPrivate,(*ti/context.Context).StartProtected,(*ti/context.Context).EndProtected
